@@ -17,3 +17,9 @@ Inductive gbody :=
 | GSomeCmp (l rr : side * conv)                        (* Some(l.cmp(&rr)) *)
 | GSomeSelfCmp                                         (* Some(self.cmp(other)) *)
 | GDerived.                                            (* #[derive(PartialEq)] on a newtype: structural *)
+
+(** Transformations a level-name parser may apply to its input before comparing it with the names
+    (tracing-attributes/src/attr.rs `impl Parse for Level`: the scrutinee `str.value()<.method()>*`).
+    The source as committed applies none; the others exist so that a changed source is *interpreted*
+    (and the language theorem then fails on a concrete string) instead of merely being unrecognised. *)
+Inductive strxf := XfAsciiLower | XfAsciiUpper | XfUniLower | XfUniUpper | XfTrim.
